@@ -52,6 +52,13 @@ var c12Queries = []c12Query{
 	{Name: "cut-only", Text: "!.", NoVar: 1},
 	{Name: "true-or-true", Text: "(! ; true).", NoVar: 1},
 	{Name: "two-empty", Text: "(true ; true).", NoVar: 2},
+	// enumerations that end at the ends of the integer range: the answers are given, not discovered, because "exactly
+	// once per answer" needs to know the answers
+	{Name: "between-to-max", Text: "between(9223372036854775806, 9223372036854775807, X).", Answers: []int{9223372036854775806, 9223372036854775807}},
+	{Name: "between-max-max", Text: "between(9223372036854775807, 9223372036854775807, X).", Answers: []int{9223372036854775807}},
+	{Name: "between-from-min", Text: "between(-9223372036854775808, -9223372036854775807, X).", Answers: []int{-9223372036854775808, -9223372036854775807}},
+	{Name: "count-to-max", Text: "call_nth(between(9223372036854775806, 9223372036854775807, _), X).", Answers: []int{1, 2}},
+	{Name: "empty-range", Text: "between(3, 1, X).", Answers: nil},
 }
 
 // c12Generators: every nondeterministic control construct, built-in and library predicate, each
@@ -67,6 +74,10 @@ var c12Generators = []string{
 	"rec(X)", "member(X, [1, 2, 3]), (X == 3 -> throw(oops) ; true)", "atom_length(A, X)", "member(X, [1, 2|_])",
 	"member(X, [1, 2, 3]), !", "!, member(X, [1, 2, 3])", "member(X, [1, 2, 3]), X >= 2, !", "X = 1, !", "retract(p(X)), !",
 	"forall_absent(X)", "between(1, 3, X), \\+ X = 2", "select(X, [1, 2, 3], R), member(Y, R), Y > X",
+	// generators whose successor step meets the ends of the integer range
+	"between(9223372036854775805, 9223372036854775807, X)", "between(9223372036854775807, 9223372036854775807, X)", "between(9223372036854775806, inf, X)",
+	"between(-9223372036854775808, -9223372036854775806, X)", "between(-9223372036854775808, -9223372036854775808, X)", "between(3, 1, X)", "between(2, 2, X)",
+	"between(9223372036854775806, 9223372036854775807, Y), X is Y - 9223372036854775800", "call_nth(between(9223372036854775806, 9223372036854775807, _), X)",
 }
 
 var c12VarRe = regexp.MustCompile(`_[0-9]+`)
